@@ -1,0 +1,62 @@
+//! Verification-only hooks. This module only exists when the crate is built with
+//! `--cfg astrolabe_verif`; without that flag nothing in here is compiled.
+//!
+//! It lets an external test harness
+//! * pin the clock read by [`DateTime::now`](crate::DateTime::now) (and therefore by
+//!   [`CronSchedule`](crate::CronSchedule) and [`Offset::Local`](crate::Offset::Local)),
+//! * substitute the content (or a read error) of `/etc/localtime`,
+//! * parse caller-supplied TZif bytes and resolve offsets for caller-supplied timestamps.
+//!
+//! All state is thread local, so parallel test cases do not influence each other.
+
+use crate::{local::timezone::TimeZone, DateTime};
+use std::cell::RefCell;
+
+thread_local! {
+    static PINNED_NOW: RefCell<Option<DateTime>> = const { RefCell::new(None) };
+    static LOCALTIME: RefCell<Option<Result<Vec<u8>, ()>>> = const { RefCell::new(None) };
+}
+
+/// Pins (`Some`) or releases (`None`) the value returned by `DateTime::now()` on this thread.
+pub fn set_now(now: Option<DateTime>) {
+    PINNED_NOW.with(|p| *p.borrow_mut() = now);
+}
+
+pub(crate) fn pinned_now() -> Option<DateTime> {
+    PINNED_NOW.with(|p| *p.borrow())
+}
+
+/// Replaces what `Offset::Local` reads from `/etc/localtime` on this thread:
+/// `Some(Ok(bytes))` = file content, `Some(Err(()))` = read error, `None` = real file.
+pub fn set_localtime(content: Option<Result<Vec<u8>, ()>>) {
+    LOCALTIME.with(|l| *l.borrow_mut() = content);
+}
+
+pub(crate) fn override_localtime(real: std::io::Result<Vec<u8>>) -> std::io::Result<Vec<u8>> {
+    match LOCALTIME.with(|l| l.borrow().clone()) {
+        Some(Ok(bytes)) => Ok(bytes),
+        Some(Err(())) => Err(std::io::Error::new(
+            std::io::ErrorKind::NotFound,
+            "verif: injected read error",
+        )),
+        None => real,
+    }
+}
+
+/// A parsed TZif file.
+#[derive(Debug)]
+pub struct Tz(TimeZone);
+
+impl Tz {
+    /// Parses TZif bytes with the same routine `Offset::Local` uses for `/etc/localtime`.
+    pub fn parse(bytes: &[u8]) -> Result<Self, String> {
+        TimeZone::from_tzif(bytes)
+            .map(Tz)
+            .map_err(|e| e.to_string())
+    }
+
+    /// UTC offset in seconds in effect at the given Unix timestamp.
+    pub fn offset_at(&self, timestamp: i64) -> i32 {
+        self.0.to_local_time_type(timestamp).utoff
+    }
+}
